@@ -4,15 +4,51 @@ import os
 from collections import defaultdict, deque
 
 
+import re
+# an inherent impl that lives in another module than its type is printed `module::<impl Type<args>>::item` by rustc; the same
+# item in the type's own module is `Type::<args>::item`.  Moving an impl block into a submodule must not rename its items.
+_IMPL_G = re.compile(r"(?:[A-Za-z_][A-Za-z_0-9]*::)+<impl ((?:[A-Za-z_][A-Za-z_0-9]*::)*[A-Za-z_][A-Za-z_0-9]*)<([^<>]*)>>::")
+_IMPL_P = re.compile(r"(?:[A-Za-z_][A-Za-z_0-9]*::)+<impl ((?:[A-Za-z_][A-Za-z_0-9]*::)*[A-Za-z_][A-Za-z_0-9]*)>::")
+
+
+def canon_paths(line):
+    if "<impl " in line:
+        line = _IMPL_G.sub(lambda m: "%s::<%s>::" % (m.group(1), m.group(2)), line)
+        line = _IMPL_P.sub(lambda m: "%s::" % m.group(1), line)
+    return line
+
+
 class LazyBodies:
-    """def path -> parsed JSON body, parsed on first access (the fact files are large)."""
+    """def path -> parsed JSON body, parsed on first access (the fact files are large).
+
+    A private free item that was moved to a sibling module keeps answering to its old path: a lookup that misses is
+    resolved to the unique item of the same name under the same two leading path segments (never ambiguous ones)."""
+
+    def _alias(self, k):
+        hit = self._aliases.get(k)
+        if hit is not None or k in self._aliases:
+            return hit
+        segs = k.split("::")
+        res = None
+        if len(segs) >= 3 and "{closure#" not in k:
+            typed = len(segs) >= 2 and (segs[-2][:1].isupper() or "<" in segs[-2])
+            tail = segs[-2:] if typed else segs[-1:]
+            # only ever the head of the *type* may differ for a method; for free items only the module segments in between
+            cands = [c for c in self._raw if c.split("::")[-len(tail):] == tail and c.split("::")[:2] == segs[:2]
+                     and "{closure#" not in c]
+            if len(cands) == 1:
+                res = cands[0]
+        self._aliases[k] = res
+        return res
 
     def __init__(self, path):
         self._raw = {}
         self._parsed = {}
         self._file = {}
+        self._aliases = {}
         with open(path) as fh:
             for line in fh:
+                line = canon_paths(line)
                 # rustc prints `core` through a visible re-export of a dependency (bitflags::core::...)
                 if "bitflags::core::" in line:
                     line = line.replace("bitflags::core::", "core::")
@@ -25,7 +61,7 @@ class LazyBodies:
                 self._file[d] = line[j + 8:k]
 
     def __contains__(self, k):
-        return k in self._raw
+        return k in self._raw or self._alias(k) is not None
 
     def __len__(self):
         return len(self._raw)
@@ -39,12 +75,20 @@ class LazyBodies:
     def __getitem__(self, k):
         v = self._parsed.get(k)
         if v is None:
+            if k not in self._raw:
+                a = self._alias(k)
+                if a is None:
+                    raise KeyError(k)
+                k = a
+                v = self._parsed.get(k)
+                if v is not None:
+                    return v
             v = json.loads(self._raw[k])
             self._parsed[k] = v
         return v
 
     def get(self, k, default=None):
-        return self[k] if k in self._raw else default
+        return self[k] if k in self else default
 
     def items(self):
         for k in self._raw:
@@ -55,7 +99,7 @@ class LazyBodies:
             yield self[k]
 
     def file_of(self, k):
-        return self._file[k]
+        return self._file[k] if k in self._file else self._file[self._alias(k)]
 
     def in_file(self, suffix):
         return [k for k, f in self._file.items() if f.endswith(suffix)]
@@ -105,7 +149,11 @@ class DB:
         for i in self.items:
             if i["def"] == path and i["dk"] in ("Struct", "Enum"):
                 return i
-        return None
+        # a type moved to a sibling module (and re-exported): the unique type of that name under the same leading segments
+        segs = path.split("::")
+        cands = [i for i in self.items if i["dk"] in ("Struct", "Enum") and i["def"].split("::")[-1] == segs[-1]
+                 and i["def"].split("::")[:2] == segs[:2]]
+        return cands[0] if len(cands) == 1 else None
 
     def hir_in(self, file_suffix):
         return [self.hir[k] for k in self.hir.in_file(file_suffix)]
